@@ -41,10 +41,10 @@ def main():
             # /repo moved on (a new fix: commit) since the scratch worktree was made: bring it up to date
             run(["git", "checkout", "-q", "--detach", head], work)
         try:
-            shutil.copy(demo, os.path.join(work, "demo_seed.py"))
+            demo_cmd = ["/venv/bin/python", demo]  # run in place (demos may locate the tree relative to themselves)
             env = dict(os.environ, PYTHONPATH=work, PYTHONHASHSEED=os.environ.get("PYTHONHASHSEED", "0"))
             env.pop("PYTHONHASHSEED")
-            clean = run(["/venv/bin/python", "demo_seed.py"], work, env)
+            clean = run(demo_cmd, work, env)
             applied = run(["git", "apply", patch], work)
             if applied.returncode != 0:
                 print(sid, "REJECT patch does not apply:", applied.stderr[:200])
@@ -53,7 +53,7 @@ def main():
                          "--continue-on-collection-errors"], work)
             tail = tests.stdout.strip().splitlines()[-1] if tests.stdout.strip() else ""
             passed = re.search(r"(\d+) passed", tail)
-            broken = run(["/venv/bin/python", "demo_seed.py"], work, env)
+            broken = run(demo_cmd, work, env)
             ok = clean.returncode == 0 and broken.returncode != 0 and passed and int(passed.group(1)) == 1008 \
                 and not re.search(r"\b\d+ failed", tail)
             print(sid, "OK" if ok else "REJECT", f"clean_demo={clean.returncode} patched_demo={broken.returncode}", tail[-70:])
